@@ -44,6 +44,8 @@ class Query:
         self.desc = desc
         self.bounds = bounds or {}
         self.expect_fail = list(expect_fail)   # regexes of obligations expected to FAIL (known findings probes)
+        self.unit_override = {}                # unit -> goto binary to link instead of the default build
+        self.includes = []
 
 
 def _limit(mem_gb):
@@ -55,7 +57,7 @@ def _limit(mem_gb):
 
 
 def cbmc_flags(q):
-    fl = ['--unwinding-assertions', '--drop-unused-functions', '--no-malloc-may-fail', '--slice-formula']
+    fl = ['--unwinding-assertions', '--drop-unused-functions', '--no-malloc-may-fail', '--slice-formula', '--object-bits', '10']
     if q.unwind is not None:
         fl += ['--unwind', str(q.unwind)]
     if q.unwindset:
@@ -83,12 +85,12 @@ def prepare_query(bld, q):
     tag = re.sub(r'[^A-Za-z0-9_]', '_', q.name)
     for m in q.models:
         src = os.path.join(VERIF, 'models', m + '.c')
-        parts.append(bld.compile_aux(src, defines=q.defines, name=tag + '-' + m))
+        parts.append(bld.compile_aux(src, defines=q.defines, name=tag + '-' + m, includes=q.includes))
     hsrc = os.path.join(VERIF, 'harness', q.harness)
-    parts.append(bld.compile_aux(hsrc, defines=q.defines, name=tag + '-h'))
+    parts.append(bld.compile_aux(hsrc, defines=q.defines, name=tag + '-h', includes=q.includes))
     ugbs = []
     for u in q.units:
-        g = bld.unit_gb(u)
+        g = q.unit_override.get(u) or bld.unit_gb(u)
         if q.remove_bodies:
             # contract stubs: drop the bodies of the named functions from the real unit so the
             # harness can supply a stub (goto-instrument --remove-function-body)
